@@ -44,3 +44,11 @@ func VerifDupSortHackEncode(d *snapshot.DBI) (*snapshot.DBI, error) {
 func VerifDupSortHackDecode(d *snapshot.DBI) (*snapshot.DBI, error) {
 	return dupSortHackDecode(d)
 }
+
+// VerifSetHostname replaces the host name that is used as instance name when
+// none is configured, and returns the previous one.
+func VerifSetHostname(h string) (previous string) {
+	previous = hostname
+	hostname = h
+	return previous
+}
